@@ -156,6 +156,13 @@ struct Exec {
     Tok t = ref_tok(win, avail);
     bool cont = true;
     std::string where = fmt("conn %d stream offset %llu, %llu byte(s) buffered, initial byte 0x%02x", ci, (unsigned long long)c.off, (unsigned long long)avail, avail ? win[0] : 0);
+    if (c.calls % 4 == 1) {   // the outcome is a function of the buffer alone: the library's own do-nothing callback set must see the same one
+      struct cbor_decoder_result r0 = cbor_stream_decode(win, avail, &cbor_empty_callbacks, nullptr);
+      if (r0.status != res.status || r0.read != res.read || (res.status == CBOR_DECODER_NEDATA && r0.required != res.required))
+        fail("C08", "result-depends-on-callback-set", where + fmt(": status/read/required %d/%zu/%zu with recording callbacks, %d/%zu/%zu with cbor_empty_callbacks", (int)res.status, res.read, res.required, (int)r0.status, r0.read, r0.required));
+      if (sa_total_requests() != req_after) fail("C08,C13", "stream-decode-allocates", "cbor_stream_decode with cbor_empty_callbacks made allocator requests");
+      stat_add("decoder_calls_with_empty_callbacks");
+    }
     if (t.st == TS_RESERVED) {
       stat_add("calls_error");
       if (res.status != CBOR_DECODER_ERROR) fail("C08,C09", "reserved-byte-not-ERROR", where + fmt(": status %d, expected ERROR", (int)res.status));
@@ -189,6 +196,10 @@ struct Exec {
             case SL_FLOAT2: wr = cbor_encode_half(u2f((uint32_t)ev.arg), eb, 9); break; case SL_FLOAT4: wr = cbor_encode_single(u2f((uint32_t)ev.arg), eb, 9); break;
             case SL_FLOAT8: wr = cbor_encode_double(u2d(ev.arg), eb, 9); break; default: break;
           }
+          // the width-generic encoders too
+          if (ev.slot >= SL_UINT8 && ev.slot <= SL_UINT64) { unsigned char gb[16]; size_t g = cbor_encode_uint(ev.arg, gb, 9); if (g == 0 || g > 9) fail("C07,C10", "low-level-encoder-length", where + fmt(": cbor_encode_uint returned %zu", g)); }
+          if (ev.slot >= SL_NEGINT8 && ev.slot <= SL_NEGINT64) { unsigned char gb[16]; size_t g = cbor_encode_negint(ev.arg, gb, 9); if (g == 0 || g > 9) fail("C07,C10", "low-level-encoder-length", where + fmt(": cbor_encode_negint returned %zu", g)); }
+          if (ev.slot == SL_BOOL || ev.slot == SL_NULL || ev.slot == SL_UNDEF) { unsigned char gb[16]; size_t g = cbor_encode_ctrl((uint8_t)(ev.slot == SL_BOOL ? 20 + (ev.arg != 0) : ev.slot == SL_NULL ? 22 : 23), gb, 9); if (g == 0 || g > 2) fail("C07,C10", "low-level-encoder-length", where + fmt(": cbor_encode_ctrl returned %zu", g)); }
           if (sa_total_requests() != rb) fail("C13", "low-level-encoder-allocates", where + fmt(": cbor_encode_* for a '%s' event made allocator requests", slot_name(ev.slot)));
           for (size_t q = 9; q < sizeof eb; q++) if (eb[q] != 0xEE) { fail("C07", "low-level-encoder-writes-past-buffer", where); break; }
           if (wr == 0 || wr > 9) fail("C07,C10", "low-level-encoder-length", where + fmt(": encoder returned %zu", wr));
